@@ -315,7 +315,9 @@ def variants(tier, faults, phase, rng):
     if len(faults) > 1 and phase == "sem":
         # two messages adjacent in the report with the same line number on different lines (spec/Report.tla)
         quick_adj = tier == "quick" and faults[0].kind != "undef"       # quick: two of the multi-fault families
-        for k in ([] if quick_adj else [0, 2, 16384] if tier == "quick" else [0, 1, 2, 100, 16383, 16384, 65536, 70000]):
+        for k in ([] if quick_adj else [0, 2, 16384] if tier == "quick" else [0, 1, 2, 100, 16383, 16384, 60000]):
+            # (k <= 65000: `inc' reads k lines twice, and TLC's 32-bit integers hold the packed word only for
+            # serial line numbers below 2^17)
             for mode in ("inc", "line", "same", "rev"):
                 out.append(("adj", dict(k=k, where=1, style=st(), mode=mode)))
     if not overflowing(faults):
